@@ -34,5 +34,10 @@ add("C07", "exploration",
     "A is compared together with its separating blank line; children excluded as the property states.",
     "property-based testing (Hypothesis; seam-directed catalogue of single blocks + constructive documents); oracle: metamorphic concatenation relation with probe-decided preconditions",
     "DESIGN.md section 4, C07")
+add("C08", "exploration",
+    "Generated (document x block-rule configuration) search; each verbatim block is compared line by line with the source lines its map names (suffix-with-container-prefix predicate inside containers, exact 4-column tab-stop model at top level), code spans with the text between their backtick strings under the CommonMark normalisation, and markup/info/start fields with the characters written on the token's own lines.",
+    "Relies on maps being right (C03 checks them); inside containers the removed prefix is only required to match the container-prefix grammar.",
+    "property-based testing (Hypothesis; tab-respelling and edge-blank code-span generators); oracle: source-line reference model (exact at top level, validity predicate in containers)",
+    "DESIGN.md section 4, C08")
 ALL = ["C%02d" % i for i in range(1, 21)]
 NA = [{"property_id": p, "reason": "check under construction in this round; not claimed until its oracle is built and shown quiet on the unchanged tree"} for p in ALL if p not in CHECKS]
